@@ -243,12 +243,16 @@ class fsIndex:
 
         assert tree
 
-        if key is None:
+        if key is None or smallest_prefix != key[:6]:
+            # No bound, or the bound's prefix is absent: every key under
+            # the next larger prefix is above the bound.
             smallest_suffix = tree.minKey()
         else:
             try:
                 smallest_suffix = tree.minKey(key[6:])
             except ValueError:  # 'empty tree' (no suffix >= arg)
+                if smallest_prefix == b'\xff' * 6:
+                    raise  # there is no larger prefix
                 next_prefix = prefix_plus_one(smallest_prefix)
                 smallest_prefix = self._data.minKey(next_prefix)
                 tree = self._data[smallest_prefix]
@@ -267,12 +271,16 @@ class fsIndex:
 
         assert tree
 
-        if key is None:
+        if key is None or biggest_prefix != key[:6]:
+            # No bound, or the bound's prefix is absent: every key under
+            # the next smaller prefix is below the bound.
             biggest_suffix = tree.maxKey()
         else:
             try:
                 biggest_suffix = tree.maxKey(key[6:])
             except ValueError:  # 'empty tree' (no suffix <= arg)
+                if biggest_prefix == b'\x00' * 6:
+                    raise  # there is no smaller prefix
                 next_prefix = prefix_minus_one(biggest_prefix)
                 biggest_prefix = self._data.maxKey(next_prefix)
                 tree = self._data[biggest_prefix]
